@@ -1,7 +1,7 @@
 (* Properties_C08.v -- C08: vi operators, inserts, puts and registers.
    Statements only; every proof is `exact <lemma>`; Print Assumptions under each. *)
 From Coq Require Import List NArith ZArith Bool.
-From NV Require Import Bytes UcDefs UcSpec MotDefs MotProps MotWordProps RegDefs RegProps ViDefs ViProps ViExecProps ViTargetProps.
+From NV Require Import Bytes UcDefs UcSpec MotDefs MotProps MotWordProps RegDefs RegProps ViDefs ViProps ViExecProps ViTargetProps ViInsDefs ViInsProps.
 Import ListNotations.
 Local Open Scope N_scope.
 
@@ -464,3 +464,99 @@ Example C08_exec_nonvacuous :
   (match exec_prog b 23 [CMot 0 Kw; COp 0 0 Od 0 (TMot Kw) []; CPut 49 0 false] with
    | Some e => Some (s_buf e) | None => None end) = Some b.
 Proof. vm_compute. split; reflexivity. Qed.
+
+(* ====================================================================================================== *)
+(* Insert mode with the autoindent option as a variable (ViInsDefs.v): the cursor after inserts that contain *)
+(* newlines.  led.c led_input removes the leading blanks of the text right of the insertion point from the   *)
+(* caller's buffer after every typed newline (under autoindent) and vi.c vi_input counts the cursor against  *)
+(* that shortened text; [post_left] is what is left of it.                                                   *)
+(* ====================================================================================================== *)
+Local Open Scope Z_scope.
+
+(* with the option on (the default) the interpreter with the option is the interpreter of ViDefs.v: every theorem
+   above about exec / exec_prog speaks about exec_x / exec_prog_x with autoindent on *)
+Theorem C08_ai_on_is_exec : forall b rows cs,
+  exec_prog_x b rows (map XC cs) = match exec_prog b rows cs with Some e' => Some (e', true) | None => None end.
+Proof. exact exec_prog_x_true. Qed.
+Print Assumptions C08_ai_on_is_exec.
+
+(* the cursor rule of every insert / change, for ALL typed keys (editing keys, ^R of multi-line registers, any number of
+   newlines), every text left (pref) and right (post) of the insertion point, autoindent on or off: the replacement
+   text is head ++ post_left, where post_left is post without its leading blanks iff a newline was typed under
+   autoindent; the reported row count is that of head ++ post_left and the reported cursor offset is that of the LAST
+   CHARACTER OF THE LAST LINE OF head (0 when that line is empty) -- not an offset counted against the original post *)
+Theorem C08_insert_cursor_rule : forall xai R pref post typed,
+  exists head,
+    fst (fst (fst (vi_input_x xai R pref post typed))) = head ++ post_left xai typed post /\
+    snd (fst (fst (vi_input_x xai R pref post typed))) = count_nl head + count_nl (post_left xai typed post) /\
+    snd (fst (vi_input_x xai R pref post typed)) = Z.max 0 (slen (last_line head) - 1).
+Proof. exact vi_input_x_rule. Qed.
+Print Assumptions C08_insert_cursor_rule.
+
+(* typing the lines s1 <Enter> s2 <Enter> ... sn (n >= 2, plain keys: no editing key) between pref and post, for every
+   pref without a newline (every split position of a line), every post (any amount of leading blanks), autoindent on
+   or off: the replacement is the lines of the reference [ref_split] -- line 1 = pref ++ s1, line k = the inherited
+   indentation ++ sk (no indentation for a line of blanks only, unless it is the last and text follows) -- joined by
+   newlines and followed by post (without its leading blanks under autoindent); the cursor row is n - 1 plus the
+   newlines of post, the cursor offset that of the last character of the last typed line INCLUDING its indentation
+   (0 if empty); n - 1 lines were added to the window *)
+Theorem C08_insert_split_input : forall xai R pref post s1 more,
+  more <> [] -> forallb plain_key s1 = true -> Forall (fun s => forallb plain_key s = true) more ->
+  Forall (fun c : chr => b0 c <> 10%N) pref ->
+  vi_input_x xai R pref post (join_nl (s1 :: more)) =
+    (join_nl (fst (ref_split xai pref post s1 more)) ++ (if xai then snd (span_blank post) else post),
+     Z.of_nat (length more) + count_nl (if xai then snd (span_blank post) else post),
+     Z.max 0 (slen (last (fst (ref_split xai pref post s1 more)) []) - 1),
+     length more).
+Proof. exact vi_input_x_split. Qed.
+Print Assumptions C08_insert_split_input.
+
+(* the leading blanks of the rest of the line: for any run of blanks bl in front of a rest that does not start with a blank *)
+Theorem C08_insert_split_rest : forall (xai : bool) (bl rest : list chr),
+  forallb is_blankc bl = true -> match rest with c :: _ => is_blankc c = false | [] => True end ->
+  (if xai then snd (span_blank (bl ++ rest ++ [nlc])) else bl ++ rest ++ [nlc]) = if xai then rest ++ [nlc] else bl ++ rest ++ [nlc].
+Proof. exact strip_blanks. Qed.
+Print Assumptions C08_insert_split_rest.
+
+(* i / a at EVERY cursor position of EVERY well-formed buffer, typing s1 <Enter> ... sn (plain keys), autoindent on or off:
+   the cursor line is replaced by the lines of the reference, the last of them followed by the rest of the old line (without
+   its leading blanks under autoindent); registers and option unchanged; the cursor is n - 1 rows further down, on the last
+   character of the last typed line with its indentation (column 0 if that is empty) *)
+Theorem C08_insert_split_buffer : forall xai rows e (append : bool) s1 more st1 body,
+  let b := s_buf e in let s := s_vs e in
+  buf_wf b -> cursor_ok b (v_row s) (v_off s) -> getl b (v_row s) = Some (body ++ [nlc]) ->
+  more <> [] -> forallb plain_key s1 = true -> Forall (fun s => forallb plain_key s = true) more ->
+  exec1_x rows (XC (CIns (if append then Ia else Ii) (join_nl (s1 :: more)))) (e, xai) = Some st1 ->
+  let off := ref_ins_off body (v_off s) append in
+  let post := skipn (Z.to_nat off) body ++ [nlc] in
+  let ls := fst (ref_split xai (firstn (Z.to_nat off) body) post s1 more) in
+  s_buf (fst st1) = set_row b (v_row s) (map (fun l => l ++ [nlc]) (removelast ls) ++ [last ls [] ++ (if xai then snd (span_blank post) else post)]) 1 /\
+  s_regs (fst st1) = s_regs e /\ snd st1 = xai /\
+  v_row (s_vs (fst st1)) = v_row s + Z.of_nat (length more) /\
+  v_off (s_vs (fst st1)) = Z.max 0 (slen (last ls []) - 1).
+Proof. exact insert_split_buffer. Qed.
+Print Assumptions C08_insert_split_buffer.
+
+(* the invariant and totality of C08_state_invariant / C08_exec_total / C08_utf8 for programs that switch the option
+   anywhere (:se ai / :se noai): from a state with valid UTF-8, well-formed lines and a cursor on an existing character every
+   program runs to the end (no out-of-fuel result) and ends in such a state *)
+Theorem C08_state_invariant_ai : forall rows cs st, est_inv (fst st) -> Forall xcmd_valid cs ->
+  exists st', exec_x rows cs st = Some st' /\ est_inv (fst st').
+Proof. exact exec_x_total. Qed.
+Print Assumptions C08_state_invariant_ai.
+
+(* non-vacuity, on the line 'foo bar' with the cursor on the second o: a <Enter> X Y <ESC>.  With autoindent the line is
+   split into 'foo' and 'XYbar' (the blank in front of bar goes) and the cursor is on Y (row 1, offset 1); without, into
+   'foo' and 'XY bar', the cursor again on Y.  A cursor counted against the unshortened ' bar' would be column 0. *)
+Example C08_insert_split_nonvacuous :
+  let b := buf_of_bytes [102; 111; 111; 32; 98; 97; 114; 10]%N in
+  let typed := [[10]; [88]; [89]]%N in
+  (match exec_prog_x b 23 [XC (CMot 2 Kspace); XC (CIns Ia typed)] with
+   | Some (e, _) => Some (map flat (s_buf e), v_row (s_vs e), v_off (s_vs e)) | None => None end)
+  = Some ([[102; 111; 111; 10]; [88; 89; 98; 97; 114; 10]]%N, 1, 1) /\
+  (match exec_prog_x b 23 [XAi false; XC (CMot 2 Kspace); XC (CIns Ia typed)] with
+   | Some (e, _) => Some (map flat (s_buf e), v_row (s_vs e), v_off (s_vs e)) | None => None end)
+  = Some ([[102; 111; 111; 10]; [88; 89; 32; 98; 97; 114; 10]]%N, 1, 1) /\
+  ref_split true [[102]; [111]; [111]]%N [[32]; [98]; [97]; [114]; [10]]%N [] [[[88]; [89]]]%N
+  = ([[[102]; [111]; [111]]; [[88]; [89]]]%N, [[98]; [97]; [114]; [10]]%N).
+Proof. vm_compute. repeat split; reflexivity. Qed.
